@@ -131,7 +131,9 @@ def law_of(spec) -> ref.Law:
     if tr:
         a, b = parse_affine(tr)
         law = law.affine(float(a), float(b))
-        law.numeric_moments = getattr(law, "numeric_moments", False)
+        # OpenTURNS integrates the moments of a CompositeDistribution numerically: bound B24
+        law.numeric_moments = True
+        law.moment_error = 0.0
         law.derived = True
     if "lower_bound" in opts or "upper_bound" in opts:
         law = ref.truncated(law, opts.get("lower_bound"), opts.get("upper_bound"))
